@@ -22,6 +22,8 @@ pub enum Profile {
 enum Kind {
     Str,
     Arr,
+    /// array with at least one element (index 0 is the only index known to be valid)
+    Arr1,
     PeerId,
     PeerList,
     Obj,
@@ -108,7 +110,7 @@ impl<'a> Gen<'a> {
             .iter()
             .filter_map(|(n, k)| match k {
                 Kind::PeerId => Some(var(n)),
-                Kind::PeerList => Some(varl(n, vec![Lens::Idx { v: 0 }])),
+                Kind::PeerList if self.profile != Profile::SeqFrag || env.guarded => Some(varl(n, vec![Lens::Idx { v: 0 }])),
                 _ => None,
             })
             .collect();
@@ -130,9 +132,12 @@ impl<'a> Gen<'a> {
                 Kind::Arr | Kind::PeerList => {
                     cands.push(varl(n, vec![Lens::Idx { v: 0 }]));
                     cands.push(varl(n, vec![Lens::Idx { v: 1 }]));
-                    if self.profile == Profile::Full {
+                    if self.profile == Profile::Full || self.profile == Profile::SeqFrag {
                         cands.push(varl(n, vec![Lens::Len]));
                     }
+                }
+                Kind::Arr1 => {
+                    cands.push(varl(n, vec![Lens::Idx { v: 0 }]));
                 }
                 Kind::Obj => {
                     cands.push(varl(n, vec![Lens::Field { v: "a".into() }]));
@@ -171,7 +176,16 @@ impl<'a> Gen<'a> {
                 }
             };
         }
-        cands.choose(self.rng).cloned().unwrap()
+        let picked = cands.choose(self.rng).cloned().unwrap();
+        // in the sequential fragment anything that can fail (a lens) must be guarded by an xor
+        if self.profile == Profile::SeqFrag && !env.guarded {
+            if let Opnd::Var { n, lens } = &picked {
+                if !lens.is_empty() {
+                    return var(n);
+                }
+            }
+        }
+        picked
     }
 
     fn gen_args(&mut self, env: &Env) -> Vec<Opnd> {
@@ -219,7 +233,7 @@ impl<'a> Gen<'a> {
             }
             4 if self.profile != Profile::SeqFrag => ("o", Kind::Obj, args),
             5 if self.profile == Profile::Full => ("n", Kind::Num, args),
-            _ => ("t", Kind::Arr, args),
+            _ => ("t", Kind::Arr1, args),
         };
         e.scalars.push((x.clone(), kind));
         (call(p, srv, &f, args, &x), e)
@@ -368,7 +382,7 @@ impl<'a> Gen<'a> {
         }
         if r < 82 {
             // fold over a scalar array / iterator-free
-            let arrs: Vec<String> = env.scalars.iter().filter(|(_, k)| *k == Kind::Arr || *k == Kind::PeerList).map(|(n, _)| n.clone()).collect();
+            let arrs: Vec<String> = env.scalars.iter().filter(|(_, k)| *k == Kind::Arr || *k == Kind::Arr1 || *k == Kind::PeerList).map(|(n, _)| n.clone()).collect();
             if let Some(a) = arrs.choose(self.rng).cloned() {
                 let it = {
                     self.xcount += 1;
